@@ -115,7 +115,7 @@ class Shuffle(ArrayExpr):
         # wide enough for offsets into the input chunks and for positions in
         # the output chunks (a group that cannot be split may exceed the limit)
         dtype = np.min_scalar_type(
-            max(*chunks[axis], self._chunk_size_limit, *map(len, new_chunks))
+            max(*chunks[axis], self._chunk_size_limit, *map(len, self._new_chunks))
         )
         split_name = f"shuffle-split-{self.deterministic_token}"
         slices = [slice(None)] * len(chunks)
